@@ -24,7 +24,7 @@ LEVEL = "exploration"
 RULE = ("product of n_endog{1,2,3} x n_exog{0,1} x order{1,2,3} x intercept{T,F} x dof_correction{T,F} x prior dummies "
         "{none, Minnesota, mean, both} x variants{1,2} x every pattern of missing data items over the 12+order periods of the "
         "data table. quick: items = (one endogenous variable rotating with the period | the exogenous variable, period), all "
-        "patterns of <=2 items without priors and of <=1 item with priors. thorough: items = every (variable, period) cell, all "
+        "patterns of <=1 item everywhere and all pairs without priors for (1 variant, dof off) and (2 variants, dof on). thorough: items = every (variable, period) cell, all "
         "patterns of <=2 cells for every prior and two prior parameter settings, plus all patterns of exactly 3 quick-level "
         "items without priors. The second variant of a two-variant case carries the mirror image of the pattern. Variant 1 of "
         "a two-variant case is a noise-free path of a known stable VAR, every other data set a deterministic pseudo-random "
@@ -36,7 +36,7 @@ MANIFEST_ENTRY = dict(
     technique="bounded exhaustive enumeration of VAR configurations x missing-data patterns against an independent numpy least-squares / companion-form reference",
     text="For every configuration (1-3 endogenous, 0-1 exogenous variables, order 1-3, intercept on/off, dof_correction on/off, "
          "prior dummies none/Minnesota/mean/both, 1-2 variants) and every pattern of missing data items in a 12-period sample "
-         "(quick: <=2 items at (block, period) level, 46 560 estimate calls / ~70k variant estimates; thorough: <=2 items at "
+         "(quick: <=2 items at (block, period) level, 29 616 estimate calls / ~44k variant estimates; thorough: <=2 items at "
          "(variable, period) cell level for all priors plus all triples at block level, 993 992 calls / ~1.5M variant estimates) "
          "RedVAR.estimate is checked against the normal equations on exactly the reference's complete rows (augmented by the "
          "reference's own dummy observations), data = fit + stored residual, exact recovery of the generating A, B, c from "
@@ -156,6 +156,12 @@ def _sig(case, **extra):
     return s
 
 
+def _near(res, name, err, tol):
+    """record comparisons that pass within three decades of their tolerance (evidence of the numerical margin)"""
+    if tol > 0 and err > 1e-3 * tol:
+        res.count("near_tolerance:%s:%s" % (name, "1e-1" if err > 1e-1 * tol else ("1e-2" if err > 1e-2 * tol else "1e-3")))
+
+
 def _errmsg(e):
     return re.sub(r"\d+", "N", str(e))[:70]
 
@@ -165,7 +171,8 @@ def run_case(case, res):
     prior, nv, seed = case["prior"], case["nv"], case["seed"]
     P = BASE_T + p
     k_reg = n * p + nx + int(ic)
-    res.ev()
+    res.ev(nv)          # one evaluation per estimated variant (a two-variant call estimates two data sets)
+    res.count("estimate_calls")
 
     def bad(check, detail="", **extra):
         res.violation(check, _sig(case, **extra), dict(case, failed_check=check), detail)
@@ -349,6 +356,7 @@ def run_case(case, res):
             tol = 1e-10 * nrmRa * (nrmRa * (1.0 + np.linalg.norm(own)) + np.linalg.norm(Ya))
             err = float(np.max(np.abs(g)))
             if err <= tol:
+                _near(res, "normal_equations", err, tol)
                 sname_used = sname
                 own_used = own
                 break
@@ -368,6 +376,7 @@ def run_case(case, res):
         fit = beta @ Rc
         dscale = np.max(np.abs(Yc)) + np.max(np.abs(beta)) * np.max(np.abs(Rc)) * k_reg
         derr = float(np.max(np.abs(fit + Uc - Yc)))
+        _near(res, "fit_plus_residual", derr, 1e-10 * dscale)
         if derr > 1e-10 * dscale:
             bad("fit_plus_residual", "max |fit + u - y| = %.3e (scale %.3e)" % (derr, dscale), **tag)
 
@@ -379,7 +388,10 @@ def run_case(case, res):
                 gbeta = np.hstack([gA, gB] + ([gc.reshape(-1, 1)] if ic else []))
                 rerr = float(np.max(np.abs(beta - gbeta)))
                 uerr = float(np.max(np.abs(Uc)))
-                if rerr > 1e-8 * (1.0 + np.max(np.abs(gbeta))):
+                rtol = (1e-8 + 100.0 * (svc[0] / svc[-1]) ** 2 * EPS) * (1.0 + np.max(np.abs(gbeta)))   # <= 3.2e-8 relative
+                _near(res, "recovery", rerr, rtol)
+                _near(res, "recovery_residuals", uerr, 1e-8 * (1.0 + np.max(np.abs(Yc))))
+                if rerr > rtol:
                     bad("recovery", "max |estimate - generating| = %.3e" % rerr, **tag)
                 if uerr > 1e-8 * (1.0 + np.max(np.abs(Yc))):
                     bad("recovery_residuals", "max |u| = %.3e on noise-free data" % uerr, **tag)
@@ -486,6 +498,7 @@ def run_case(case, res):
             elif not okk or not worst_a <= atol:
                 bad("acov", "max diff %.3e > %.3e (radius %.3f, cond %.2e)" % (worst_a, atol, rad, kcond), **tag)
             else:
+                _near(res, "acov", worst_a, atol)
                 res.count("acov_checked")
 
         # -- bookkeeping ---------------------------------------------------------------------------
@@ -545,6 +558,7 @@ def run_case(case, res):
             bad("simulate_reproduces_data", "max |simulated - data| = %.3e over rows %d-%d" % (serr, a, b),
                 diagnosis=diag, **tag)
             break
+        _near(res, "simulate", serr, 1e-11 * sc)
         res.count("simulate_runs_checked")
     return ok_variants
 
@@ -606,7 +620,9 @@ def plan(ctx):
             for nv in (1, 2):
                 for prior in PRIORS:
                     if ctx.quick:
-                        groups.append((cfg, dof, prior, 0, nv, "row", 0, 2 if prior == "none" else 1))
+                        # pairs: without priors, for (1 variant, dof off) and (2 variants, dof on)
+                        pairs = prior == "none" and (nv == 2) == bool(dof)
+                        groups.append((cfg, dof, prior, 0, nv, "row", 0, 2 if pairs else 1))
                     else:
                         for ps in ((0,) if prior == "none" else (0, 1)):
                             groups.append((cfg, dof, prior, ps, nv, "cell", 0, 2))
@@ -660,12 +676,12 @@ def run(ctx, total, info):
 
 # Vacuity floors: about half of what the unchanged tree measures (on which every intercept=False configuration
 # still fails in estimate, i.e. half of the space is not reached; a repaired tree measures about twice as much).
-FLOORS_QUICK = {"distinct_nontrivial": 14000, "recovery_checked": 3500, "simulate_runs_checked": 10000, "acov_checked": 11000,
-                "mean_checked": 14000, "fitted_row_patterns": 350, "configs_reached": 144, "recovery_configs": 25,
-                "eigenvalues_checked_complex": 10000, "reference_selfchecks_ok": 1}
-FLOORS_THOROUGH = {"distinct_nontrivial": 1, "recovery_checked": 1, "simulate_runs_checked": 1, "acov_checked": 1,
-                   "mean_checked": 1, "fitted_row_patterns": 1, "configs_reached": 1, "recovery_configs": 1,
-                   "eigenvalues_checked_complex": 1, "reference_selfchecks_ok": 1}
+FLOORS_QUICK = {"distinct_nontrivial": 9500, "recovery_checked": 1900, "simulate_runs_checked": 6400, "acov_checked": 7300,
+                "mean_checked": 9500, "fitted_row_patterns": 350, "configs_reached": 144, "recovery_configs": 25,
+                "eigenvalues_checked_complex": 6900, "reference_selfchecks_ok": 1}
+FLOORS_THOROUGH = {"distinct_nontrivial": 300000, "recovery_checked": 28000, "simulate_runs_checked": 230000,
+                   "acov_checked": 200000, "mean_checked": 300000, "fitted_row_patterns": 1500, "configs_reached": 144,
+                   "recovery_configs": 34, "eigenvalues_checked_complex": 230000, "reference_selfchecks_ok": 1}
 
 
 def replay(case):
